@@ -407,7 +407,7 @@ Section DescribesMain.
     | [] => []
     | (i, x) :: r =>
         (if extractable i then
-           if f_anon i then items_of cfg x
+           if flattened i x then items_of cfg x
            else [(i, should_include cfg i (is_empty x) (is_value_zero x), plain cfg x)]
          else []) ++ gofs r
     end.
@@ -415,8 +415,8 @@ Section DescribesMain.
     match fs with
     | [] => []
     | (i, x) :: r =>
-        (if cextractable i then
-           if f_anon i then snd (cwalk cfg x)
+        (if cextractable i x then
+           if flattened i x then snd (cwalk cfg x)
            else [(i, should_include cfg i (is_empty x) (is_value_zero x), canon cfg x)]
          else []) ++ cgofs r
     end.
@@ -550,9 +550,9 @@ Section DescribesMain.
     unfold promoted_ok in Hp1. unfold extractable, cextractable.
     destruct (f_exported i); cbn [orb andb negb] in *.
     - destruct (negb (omit_eqb (f_omit i) OAlways)); [|constructor].
-      destruct (f_anon i); [exact Hi|].
+      destruct (flattened i x); [exact Hi|].
       constructor; [split; [reflexivity | exact Hr] | constructor].
-    - destruct (f_anon i); cbn [andb negb orb] in *; [|constructor].
+    - destruct (flattened i x); cbn [andb negb orb] in *; [|constructor].
       destruct (negb (omit_eqb (f_omit i) OAlways)); cbn [negb orb] in *; [|constructor].
       destruct (snd (cwalk cfg x)); [constructor | discriminate Hp1].
   Qed.
@@ -1259,7 +1259,7 @@ Section Valid.
     cbn [forallb snd] in Hd. apply andb_true_iff in Hd as [Hd1 Hd2]. cbn [snd] in Hx.
     cbn [gofs]. apply Forall_app. split; [|apply IH; exact Hd2].
     destruct (extractable i); [|constructor].
-    destruct (f_anon i).
+    destruct (flattened i x).
     - apply (Hx d). apply (vok_mono x d (d + 1)); [lia | exact Hd1].
     - constructor; [|constructor]. cbn [snd]. apply (Hx (d + 1) Hd1).
   Qed.
@@ -1599,7 +1599,7 @@ Section Completes.
     | [] => []
     | (i, x) :: r =>
         (if extractable i then
-           if f_anon i then snd (rwalk cfg dups x)
+           if flattened i x then snd (rwalk cfg dups x)
            else [(i, should_include cfg i (is_empty x) (is_value_zero x), fst (rwalk cfg dups x))]
          else []) ++ rgofs r
     end.
@@ -1649,7 +1649,7 @@ Section Completes.
       assert (Hits : Forall (fun it : ritem => total (snd it)) (rgofs fs)).
       { induction H as [|[i x] fs [Hx [Hi _]] H IH]; [constructor|]. cbn [rgofs snd] in *.
         apply Forall_app. split; [|exact IH].
-        destruct (extractable i); [|constructor]. destruct (f_anon i); [exact Hi|].
+        destruct (extractable i); [|constructor]. destruct (flattened i x); [exact Hi|].
         constructor; [exact Hx | constructor]. }
       split; [|split; [rewrite ritems_struct; exact Hits | exact I]].
       rewrite rwalk_struct. destruct (find_record (c_records cfg) sid) as [r|].
